@@ -443,6 +443,58 @@ def wl_full_tables(ctx, rng, case):
     run_guarded(ctx, case, body)
 
 
+def wl_wide_quotient(ctx, rng, case):
+    """quotients around the remainder-width boundaries (remainder 16 / 17 bits: the slot array changes its element type), a few hundred hashes"""
+    import probables as P
+    from probables.exceptions import QuotientFilterError
+
+    q = [15, 16, 17, 12, 10][case.index % 5]
+    seed = rng.getrandbits(32)
+    case.desc = {"quotient": q, "kind": "wide quotient"}
+    ctx.observe("quotients", q)
+
+    def body(mode):
+        import random
+
+        r2 = random.Random(seed)
+        g = Guard(ctx, mode)
+        r = 32 - q
+        f = P.QuotientFilter(quotient=q, auto_expand=False)
+        S = set()
+        # clustered hashes: a handful of quotients (incl. the last ones: wrap-around) x many remainders incl. the extreme ones
+        quots = [0, 1, (1 << q) - 1, (1 << q) - 2] + [r2.randrange(1 << q) for _ in range(6)]
+        U = []
+        for quot in quots:
+            for rem in [0, 1, (1 << r) - 1, (1 << r) - 2, 1 << (r - 1)] + [r2.randrange(1 << r) for _ in range(8)]:
+                U.append(mk(q, quot, rem))
+        U = sorted(set(U))
+        for step in range(r2.randint(60, 160)):
+            h = r2.choice(U)
+            if h in S and r2.random() < 0.35:
+                f.remove_alt(h)
+                S.discard(h)
+                case.op("remove", h)
+            else:
+                f.add_alt(h)
+                S.add(h)
+                case.op("add", h)
+            # cheap per-step probe: a sample of the universe; full probe every 40 steps
+            for h2 in r2.sample(U, 12):
+                ctx.counters["oracle_evaluations"] += 1
+                if f.check_alt(h2) != (h2 in S):
+                    ctx.fail(f"check_alt wrong on a quotient-{q} filter after step {step}", hash=h2, stored=h2 in S)
+            ctx.check(f.elements_added == len(S), f"elements_added differs from the number of stored hashes (quotient {q}, step {step})", got=f.elements_added, want=len(S))
+            if step % 40 == 39:
+                probe(ctx, g, f, S, U, q, f"on a quotient-{q} filter after step {step}")
+        probe(ctx, g, f, S, U, q, f"on a quotient-{q} filter at the end")
+        f.resize(q + 1)
+        probe(ctx, g, f, S, U, q + 1, f"after resizing a quotient-{q} filter")
+        ctx.count("wide_quotient_cases")
+        case.nontrivial = True
+
+    run_guarded(ctx, case, body)
+
+
 def finish(cov, merged, tier):
     c = merged["counters"]
     cov["states"] = int(c.get("bfs.states", 0))
@@ -461,6 +513,7 @@ PROP = Prop(
     workloads=[
         Workload("full_tables", wl_full_tables, quick=80, thorough=3000),
         Workload("resize_merge", wl_resize_merge, quick=200, thorough=10000),
+        Workload("wide_quotient", wl_wide_quotient, quick=5, thorough=100),
         Workload("history", wl_history, quick=500, thorough=40000),
         Workload("exhaustive_q3", wl_exhaustive_q3, quick=256, thorough=256, exhaustive=True),
     ],
@@ -470,5 +523,5 @@ PROP = Prop(
                  "K1 (listed in known_findings.json) is recognised by mechanism - remove of a stored hash on a completely full table whose canonical layout is one cluster - and never executed"],
     finish=finish,
     required=["full_probes", "bfs.states", "bfs.transitions", "resizes", "merges", "probes_on_completely_full_table", "calls_under_line_budget",
-              "removals_on_full_multi_cluster_tables", "shrinks"],
+              "removals_on_full_multi_cluster_tables", "shrinks", "wide_quotient_cases"],
 )
